@@ -40,10 +40,13 @@ LEVEL_NOTE = ("Trusted: Coq kernel; extraction and ocaml/driver.ml for the corre
               "tasks whose OK claims application (worker verbs, load-state, soft/hard stop). Query, metrics and status tasks answer OK "
               "with whatever was gathered: by design for status (the per-worker run state is the content of the answer); for "
               "query/metrics the content lists only the workers that answered and the status stays OK — kept as an open finding, not "
-              "changed (a CLI-visible semantic decision). A task without timeout (load-state, soft stop) still waits without bound for "
-              "a worker that is alive but silent; a worker whose channel closes is counted as failed at once. A response that arrives "
-              "in the same loop batch as the request that scattered it (impossible for a real worker: the request is flushed one "
-              "iteration later) would be dropped; a client that pipelines two requests in one read has all but the last dropped "
+              "changed (a CLI-visible semantic decision). Deadlines (theorem deadline_coverage, driven by the silent_<verb> cases): worker verbs, query/status/metrics, hard "
+              "stop and load-state have the worker timeout; the soft stop has none by design (sessions may take arbitrarily long to "
+              "drain) and waits without bound for a worker that is alive but silent — open finding no-deadline-softstop; the "
+              "static-configuration reload has none either (not driven: it needs a full configuration file). A worker whose channel "
+              "closes is counted as failed at once, deadline or not. A response that arrives in the same loop batch as the request "
+              "that scattered it would be dropped (the task is still in queued_tasks): impossible for a real worker, the request is "
+              "only flushed to it one loop iteration later; a client that pipelines two requests in one read has all but the last dropped "
               "(responses carry no id, the protocol is one request at a time).")
 TECHNIQUE = "Rocq/Coq proof over an executable Gallina model + source translator (decision tables) + differential correspondence (extracted OCaml vs real CommandHub)"
 CLAIMED = True
@@ -279,9 +282,12 @@ def translate():
     m = re.search(r"if ([^{}]*?) \{\s*client\.finish_ok\(format!\(\s*\"Successfully loaded state[^;]*;\s*return;\s*\}\s*client\.finish_failure\(", lt)
     if not m:
         fails.append("LoadStateTask::on_finish: final answer not recognised")
-        g.append("Definition load_ok (errors : nat) : bool := true.")
+        g.append("Definition load_ok (errors : nat) (timed_out : bool) : bool := true.")
     else:
-        g.append("Definition load_ok (errors : nat) : bool := %s." % cond_to_coq(m.group(1), {"errors": "errors"}, fails, "LoadStateTask verdict"))
+        g.append("Definition load_ok (errors : nat) (timed_out : bool) : bool := %s."
+                 % cond_to_coq(m.group(1), {"errors": "errors", "timed_out": "timed_out"}, fails, "LoadStateTask verdict"))
+    if len(re.findall(r"client\.finish_(?:ok|failure)\(", lt)) != 2:
+        fails.append("LoadStateTask::on_finish: expected exactly one finish_ok and one finish_failure")
     st = body_after(rq, r"impl GatheringTask for StopTask\s*\{", "impl GatheringTask for StopTask", fails)
     atoms = {"timed_out": "timed_out", "self.hardness": "hardness", "self.gatherer.errors": "errors"}
     m = re.search(r"let hard_stop_timed_out = ([^;]*);\s*if hard_stop_timed_out \{\s*client\.finish_failure\(", st)
@@ -398,7 +404,7 @@ class Sim:
                 self.tasks.append(t)
             return None
         per = n if verb == "load" else 1
-        t = dict(client=c, verb=verb, timed=verb not in ("load", "softstop"), at=self.logical,
+        t = dict(client=c, verb=verb, timed=verb != "softstop", at=self.logical,
                  slots={w: list(range(self.recv[w], self.recv[w] + per)) for w in self.alive()},
                  answered=set(), done=False)
         for w in self.alive():
@@ -497,9 +503,24 @@ def gen_case(rng, cid, allow_sleep, allow_stop):
     return Case(cid, s.ops, {})
 
 
+def silent_cases():
+    """a worker that is alive but silent past the worker timeout, for every scattering verb"""
+    out = []
+    for verb, extra in (("wok", []), ("query", []), ("status", []), ("metrics", []), ("hardstop", []), ("load", [2]), ("softstop", [])):
+        ops = [["hub", 2, 1, 2], ["req", 0, verb] + extra]
+        per = extra[0] if extra else 1
+        for k in range(per):
+            ops.append(["resp", 0, 0, k, 0])
+        if verb == "softstop":
+            ops.append(["resp", 1, 1, 0, 1])           # a processing notice only
+        ops += [["sleep", 1300], ["end"]]
+        out.append(Case("silent_" + verb, ops, {}))
+    return out
+
+
 def gen_cases(rng, tier):
     n, nslow = {"quick": (1500, 56), "thorough": (20000, 480), "search": (1200, 160)}.get(tier, (1500, 56))
-    out = []
+    out = silent_cases()
     for i in range(n):
         out.append(gen_case(rng, "f%d" % i, False, i % 5 == 0))
     for i in range(nslow):
